@@ -131,8 +131,16 @@ func Intersection(line1Start, line1End, line2Start, line2End geom.Coord) geom.Co
 func orientationIndexFilter(vectorOrigin, vectorEnd, point geom.Coord) orientation.Type {
 	var detsum float64
 
-	detleft := (vectorOrigin[0] - point[0]) * (vectorEnd[1] - point[1])
-	detright := (vectorOrigin[1] - point[1]) * (vectorEnd[0] - point[0])
+	dx1, dy1 := vectorOrigin[0]-point[0], vectorEnd[1]-point[1]
+	dy2, dx2 := vectorOrigin[1]-point[1], vectorEnd[0]-point[0]
+	detleft := dx1 * dy1
+	detright := dy2 * dx2
+	// The error bound below assumes products that are accurate to a relative
+	// rounding error. A product that underflowed (to zero or to a subnormal) or
+	// overflowed is not, so leave those inputs to the exact computation.
+	if !isSafeProduct(dx1, dy1, detleft) || !isSafeProduct(dy2, dx2, detright) {
+		return 2
+	}
 	det := detleft - detright
 
 	switch {
@@ -156,6 +164,17 @@ func orientationIndexFilter(vectorOrigin, vectorEnd, point geom.Coord) orientati
 	}
 
 	return 2
+}
+
+// isSafeProduct returns whether product, the float64 product of x and y, is an
+// exact zero (one factor is zero) or a normal finite number.
+func isSafeProduct(x, y, product float64) bool {
+	if x == 0 || y == 0 {
+		// zero times infinity (an overflowed difference) is NaN
+		return product == 0
+	}
+	abs := math.Abs(product)
+	return abs >= 0x1p-1022 && abs <= math.MaxFloat64
 }
 
 func orientationBasedOnSign(x float64) orientation.Type {
